@@ -1,5 +1,5 @@
 import Nstd.Generated.CallbackBody
-import Nstd.Callback.LemmasTie
+import Nstd.Callback.LemmasBulk
 /-
   Property C12, the tie by TRANSLATION.  `Nstd.Generated.CallbackBody` holds the bodies of
       Callback::connect   Callback::disconnect   Callback::Listener::~Listener   Callback::Emitter::~Emitter
@@ -12,7 +12,7 @@ import Nstd.Callback.LemmasTie
       tie_connect, tie_connectT        connect = `connect`          (live emitter and listener; absent map key = no list)
       tie_disconnect, tie_disconnectT  disconnect = `disconnect`    (live emitter and listener)
       tie_dtorListener                 ~Listener; the object dies = `delListener`   (every state with that listener)
-      tie_dtorEmitter                  ~Emitter; the object dies = `delEmitter`     (absent map key = no list)
+      tie_dtorEmitter(_sim)            ~Emitter = the model's pair-by-pair form or the bulk form (`sim_bulk`: same specification state)
       tie_emit_next, tie_emit_first    the loop of `emit` up to the next call = `next`
   for every state (no reachability needed beyond the stated hypotheses, which `Audit` — hence every reachable state, by
   `no_dangling` — implies: `lkeys_of_audit`).  A change of one of these bodies changes the generated definition; if it changes
@@ -247,19 +247,83 @@ theorem tie_delEmitterSig (e : Nat) (em : Emitter) (h : State) (he : h.emitters 
       obtain ⟨h1, h2⟩ := foldl_dropSignal_inv e g d.slots _ (lkeys_invalidate h a hk)
       exact ⟨trivial, h1, by rw [h2, invalidate_emitters]⟩
 
-/-- the translated body of `~Emitter`, followed by the death of the object, is the model's `delEmitter`, on every state in
-    which a key absent from a listener's map has no list (every audited state) -/
+theorem bulkStep_emitters (e : Nat) (h : State) (x : Slot) : (bulkStep e h x).emitters = h.emitters := by
+  unfold bulkStep
+  by_cases hs : x.state = .disconnected
+  · simp [hs]
+  · simp only [hs, if_false]
+    cases hr : h.listeners x.receiver with
+    | none => rw [dropAll_dead hr]; rfl
+    | some lr => rw [dropAll_live hr]; split <;> rfl
+
+theorem bulkFold_emitters (e : Nat) (xs : List Slot) (h : State) : (xs.foldl (bulkStep e) h).emitters = h.emitters := by
+  induction xs generalizing h with
+  | nil => rfl
+  | cons x xs ih => simp only [List.foldl_cons]; rw [ih, bulkStep_emitters]
+
+theorem bulkSig_emitters (e : Nat) (em : Emitter) (h : State) (g : Nat) : (bulkSig e em h g).emitters = h.emitters := by
+  unfold bulkSig
+  cases em.sig g with
+  | none => rfl
+  | some d =>
+    simp only
+    rw [bulkFold_emitters]
+    cases d.activation with
+    | none => rfl
+    | some i => exact invalidate_emitters h i
+
+/-- **The translated body of `~Emitter` is one of the two forms the proofs know**: the model's own — for every signal, invalidate
+    the innermost activation and erase, for every slot not marked `disconnected`, the (signal, slot) pair from the receiver's
+    list (`delEmitterSig`; on every state in which a key absent from a listener's map has no list) — or the bulk form — drop the
+    receiver's whole list for this emitter (`bulkSig`, LemmasBulk.lean).  Which one is decided by the current Callback.cpp. -/
 theorem tie_dtorEmitter (st : State) (e : Nat) (em : Emitter) (he : st.emitters e = some em) (hk : LKeys st) :
-    (CallbackBody.dtorEmitter st e).setEmitter e none = delEmitter e st := by
-  unfold CallbackBody.dtorEmitter delEmitter
-  simp only [he]
-  congr 1
-  have hks : H.sigKeys st e = em.sigKeys := by simp [H.sigKeys, he]
-  rw [hks]
-  refine foldl_inv_congr _ (delEmitterSig e em) (fun h => h.emitters e = some em ∧ LKeys h) ?_ em.sigKeys st ⟨he, hk⟩
-  intro b a hb
-  obtain ⟨h1, h2, h3⟩ := tie_delEmitterSig e em b hb.1 hb.2 a
-  exact ⟨h1, by rw [h3]; exact hb.1, h2⟩
+    CallbackBody.dtorEmitter st e = em.sigKeys.foldl (delEmitterSig e em) st ∨
+    CallbackBody.dtorEmitter st e = em.sigKeys.foldl (bulkSig e em) st := by
+  first
+  | (left
+     unfold CallbackBody.dtorEmitter
+     have hks : H.sigKeys st e = em.sigKeys := by simp [H.sigKeys, he]
+     rw [hks]
+     refine foldl_inv_congr _ (delEmitterSig e em) (fun h => h.emitters e = some em ∧ LKeys h) ?_ em.sigKeys st ⟨he, hk⟩
+     intro b a hb
+     obtain ⟨h1, h2, h3⟩ := tie_delEmitterSig e em b hb.1 hb.2 a
+     exact ⟨h1, by rw [h3]; exact hb.1, h2⟩)
+  | (right
+     unfold CallbackBody.dtorEmitter
+     have hks : H.sigKeys st e = em.sigKeys := by simp [H.sigKeys, he]
+     rw [hks]
+     refine foldl_inv_congr _ (bulkSig e em) (fun h => h.emitters e = some em) ?_ em.sigKeys st he
+     intro b g hb
+     refine ⟨?_, by rw [bulkSig_emitters]; exact hb⟩
+     unfold bulkSig
+     cases hd : em.sig g with
+     | none => simp [H.activation, H.slots, State.data, hb, hd]
+     | some d =>
+       cases ha : d.activation with
+       | none =>
+         have hact : H.activation b e g = none := by simp [H.activation, State.data, hb, hd, ha]
+         have hsl : H.slots b e g = d.slots := by simp [H.slots, State.data, hb, hd]
+         simp only [hact, hsl, Option.isSome_none, Bool.false_eq_true, if_false, ha]
+         exact bulk_inner e d.slots b none (fun r hr => by cases hr)
+       | some a =>
+         have hact : H.activation b e g = some a := by simp [H.activation, State.data, hb, hd, ha]
+         have hsl : H.slots (invalidate b a) e g = d.slots := by simp [H.slots, State.data, invalidate_emitters, hb, hd]
+         simp only [hact, Option.isSome_some, if_true, H.frInvalidateP, hsl, ha]
+         exact bulk_inner e d.slots _ none (fun r hr => by cases hr))
+
+/-- … and either way the translated `~Emitter`, followed by the death of the object, leads from a state related to a
+    specification state to a state related to the specification's `delE` of it (for the model's form the state IS the model's
+    `delEmitter`; the bulk form differs from it only in the key lists of the listeners' maps: `sim_bulk`) -/
+theorem tie_dtorEmitter_sim {m : State} {s : Spec.SState} {K : MStack} (e : Nat) (em : Emitter) (hs : Sim m s K)
+    (he : m.emitters e = some em) :
+    Sim ((CallbackBody.dtorEmitter m e).setEmitter e none) (Spec.delE e s) K := by
+  rcases tie_dtorEmitter m e em he (lkeys_of_audit (audit_of_sim hs)) with h | h
+  · rw [h]
+    have : (em.sigKeys.foldl (delEmitterSig e em) m).setEmitter e none = delEmitter e m := by simp [delEmitter, he]
+    rw [this]
+    exact sim_delE e hs (by simp [machine, he])
+  · rw [h]
+    exact sim_bulk e em hs he
 
 /-! ### the activation guard: `SignalActivation` constructor and destructor -/
 
